@@ -182,6 +182,9 @@ type c14Cfg struct {
 	Snap     bool // hash scheme with the flat snapshot tree attached
 	Cancun   bool // Cancun rules: plain storage keys in the state update, EIP-6780 self-destruct
 	Prefetch bool // trie prefetcher started for every block
+	// Prefix is executed (unobserved) on the base state before the exploration starts:
+	// the explored histories then begin in the middle of a block.
+	Prefix []string
 }
 
 func (c *c14Cfg) rules() params.Rules {
@@ -340,7 +343,25 @@ func c14NewSys(r *mc.R, cfg *c14Cfg, ops []c14Op) *c14Sys {
 	x.m = &c14Model{cur: base.clone(), txStart: base.clone()}
 	if err := x.openBlock(); err != nil {
 		x.initErr = err
+		return x
 	}
+	for _, name := range cfg.Prefix {
+		op := -1
+		for i, o := range ops {
+			if o.name() == name {
+				op = i
+			}
+		}
+		if op < 0 || !x.Enabled(op) {
+			x.initErr = fmt.Errorf("prefix op %q unknown or not enabled", name)
+			return x
+		}
+		if err := x.apply(op, false); err != nil {
+			x.initErr = fmt.Errorf("prefix op %q: %v", name, err)
+			return x
+		}
+	}
+	x.armed = false
 	x.key = x.computeKey()
 	return x
 }
@@ -914,11 +935,13 @@ func (x *c14Sys) computeKey() string {
 func (x *c14Sys) Key() string { return x.key }
 
 func c14Configs(r *mc.R) []*c14Cfg {
-	deep, shallow := mc.Pick(r, 4, 5), mc.Pick(r, 3, 4)
+	deep, shallow := mc.Pick(r, 4, 5), mc.Pick(r, 3, 5)
 	return []*c14Cfg{
 		{Name: "hash+snapshot", Depth: deep, Snap: true},
 		{Name: "path", Depth: deep, Path: true},
-		{Name: "path/cancun", Depth: deep, Path: true, Cancun: true},
+		{Name: "hash+snapshot@A-destructed", Depth: shallow, Snap: true, Prefix: []string{"SelfDestruct(A)", "EndTx"}},
+		{Name: "path@A-destructed", Depth: deep, Path: true, Prefix: []string{"SelfDestruct(A)", "EndTx"}},
+		{Name: "path/cancun", Depth: shallow, Path: true, Cancun: true},
 		{Name: "hash", Depth: shallow, Path: false},
 		{Name: "hash+snapshot/cancun", Depth: shallow, Snap: true, Cancun: true},
 		{Name: "path+prefetcher", Depth: shallow, Path: true, Prefetch: true},
